@@ -12,6 +12,7 @@ import (
 	"github.com/ory/keto/internal/namespace/ast"
 	"github.com/ory/keto/internal/relationtuple"
 	"github.com/ory/keto/internal/x"
+	"github.com/ory/keto/internal/x/graph"
 	"github.com/ory/keto/ketoapi"
 )
 
@@ -96,6 +97,10 @@ func (e *Engine) checkSubjectSetRewrite(
 		if _, found := handled[i]; found {
 			continue
 		}
+		ctx := ctx
+		if rewrite.Operation == ast.OperatorAnd {
+			ctx = graph.ResetVisited(ctx)
+		}
 
 		switch c := child.(type) {
 
@@ -149,6 +154,7 @@ func (e *Engine) checkInverted(
 		Trace("invert check")
 
 	var check checkgroup.CheckFunc
+	ctx = graph.ResetVisited(ctx)
 
 	switch c := inverted.Child.(type) {
 
@@ -182,7 +188,7 @@ func (e *Engine) checkInverted(
 
 	return func(ctx context.Context, resultCh chan<- checkgroup.Result) {
 		innerCh := make(chan checkgroup.Result, 1)
-		go check(ctx, innerCh)
+		go check(graph.ResetVisited(ctx), innerCh)
 		select {
 		case result := <-innerCh:
 			// never turn a failed check into a decision
